@@ -10,10 +10,7 @@ Arguments vsconcat : simpl never.
 
 (* ------------------------------------------------------------------ sorted maps are extensional *)
 Lemma sorted_head_notin k v m : sorted ((k, v) :: m) -> ~ In k (mkeys m).
-Proof. intros H Hin. inversion H; subst. match goal with H : forall _, _ -> _ |- _ => specialize (H _ Hin) end. lia. Qed.
-
-Lemma sorted_tail k v m : sorted ((k, v) :: m) -> sorted m.
-Proof. intros H. inversion H; auto. Qed.
+Proof. intros H Hin. pose proof (sorted_head_lt _ _ _ _ H Hin). tord. Qed.
 
 Lemma sorted_ext m1 : forall m2, sorted m1 -> sorted m2 ->
   (forall k, In k (mkeys m1) <-> In k (mkeys m2)) ->
@@ -24,13 +21,12 @@ Proof.
   - exfalso. apply (Hk k1). left. reflexivity.
   - pose proof (sorted_head_notin _ _ _ H1) as N1. pose proof (sorted_head_notin _ _ _ H2) as N2.
     assert (E : k1 = k2).
-    { inversion H1 as [|? ? ? _ L1]; inversion H2 as [|? ? ? _ L2]; subst.
-      destruct (proj1 (Hk k1) (or_introl eq_refl)) as [E|Hin]; [simpl in E; congruence|].
+    { destruct (proj1 (Hk k1) (or_introl eq_refl)) as [E|Hin]; [simpl in E; congruence|].
       destruct (proj2 (Hk k2) (or_introl eq_refl)) as [E|Hin']; [simpl in E; congruence|].
-      specialize (L2 _ Hin). specialize (L1 _ Hin'). lia. }
+      pose proof (sorted_head_lt _ _ _ _ H2 Hin). pose proof (sorted_head_lt _ _ _ _ H1 Hin'). tord. }
     subst k2.
     assert (Ev : v1 = v2).
-    { specialize (Hg k1). simpl in Hg. rewrite N.eqb_refl in Hg.
+    { specialize (Hg k1). simpl in Hg. rewrite teqb_refl in Hg.
       rewrite (mgather_notin k1 m1 N1), (mgather_notin k1 m2 N2), !app_nil_r_s in Hg. exact Hg. }
     subst v2. f_equal.
     apply IH; [eapply sorted_tail; eauto|eapply sorted_tail; eauto| |].
@@ -38,7 +34,7 @@ Proof.
       * destruct (proj1 (Hk k) (or_intror Hin)) as [E|]; auto. simpl in E. subst. contradiction.
       * destruct (proj2 (Hk k) (or_intror Hin)) as [E|]; auto. simpl in E. subst. contradiction.
     + intros k. specialize (Hg k). simpl in Hg.
-      destruct (N.eqb_spec k k1); auto. subst.
+      destruct (teqb_spec k k1); auto. subst.
       rewrite (mgather_notin k1 m1 N1), (mgather_notin k1 m2 N2). reflexivity.
 Qed.
 
@@ -50,22 +46,6 @@ Proof.
   - intros k. rewrite !mgather_ins_all by constructor. simpl. rewrite Hg. reflexivity.
 Qed.
 
-(* chunks canonicalised one by one, then concatenated = raw entries concatenated *)
-Lemma concat_canon raws acc :
-  ins_all (List.concat (map (fun r => ins_all r []) raws)) acc = ins_all (List.concat raws) acc.
-Proof.
-  revert acc. induction raws as [|r raws IH]; intros acc; [reflexivity|].
-  cbn [map List.concat]. rewrite !ins_all_app, ins_all_canon0. apply IH.
-Qed.
-
-Lemma mval_canon raws : raws <> [] ->
-  mval (map (fun r => ins_all r []) raws) = ins_all (List.concat raws) [].
-Proof.
-  destruct raws as [|a [|b raws]]; intros H; [congruence| |].
-  - simpl. rewrite app_nil_r. reflexivity.
-  - unfold mval. cbn [map]. apply (concat_canon (a :: b :: raws)).
-Qed.
-
 (* ------------------------------------------------------------------ the generic argument *)
 (* a chunk x gives, for the mapping entry e, a string or nothing *)
 Section Gen.
@@ -74,24 +54,30 @@ Section Gen.
 
   Definition gval (x : X) (e : option N * N) : string := match get x e with Some v => v | None => EmptyString end.
 
-  Definition raw (es : list (option N * N)) (x : X) : amap :=
-    flat_map (fun e => match get x e with Some v => [(snd e, v)] | None => [] end) es.
+  (* the key an entry writes *)
+  Definition tk (e : option N * N) : tkey := kstr (snd e).
 
-  Lemma raw_keys es x k : In k (mkeys (raw es x)) <-> exists e, In e es /\ snd e = k /\ get x e <> None.
+  Definition raw (es : list (option N * N)) (x : X) : amap :=
+    flat_map (fun e => match get x e with Some v => [(tk e, v)] | None => [] end) es.
+
+  Lemma raw_keys es x k : In k (mkeys (raw es x)) <-> exists e, In e es /\ tk e = k /\ get x e <> None.
   Proof.
     unfold raw, mkeys. rewrite in_map_iff. split.
     - intros ([k' v] & <- & Hin). apply in_flat_map in Hin as (e & He & Hin).
       destruct (get x e) eqn:E; [|destruct Hin]. destruct Hin as [Hin|[]]. inversion Hin; subst.
       exists e. repeat split; auto. congruence.
     - intros (e & He & <- & Hg). destruct (get x e) as [v|] eqn:E; [|congruence].
-      exists (snd e, v). split; auto. apply in_flat_map. exists e. split; auto. rewrite E. left. reflexivity.
+      exists (tk e, v). split; auto. apply in_flat_map. exists e. split; auto. rewrite E. left. reflexivity.
   Qed.
 
+  Lemma raw_flat es x : flat_keys (mkeys (raw es x)).
+  Proof. intros k Hk. apply raw_keys in Hk as (e & _ & <- & _). reflexivity. Qed.
+
   (* the strings gathered under k: those of the entries that target k *)
-  Fixpoint gat (es : list (option N * N)) (k : N) (x : X) : string :=
+  Fixpoint gat (es : list (option N * N)) (k : tkey) (x : X) : string :=
     match es with
     | [] => EmptyString
-    | e :: es' => (if N.eqb k (snd e) then gval x e else EmptyString) +++ gat es' k x
+    | e :: es' => (if teqb k (tk e) then gval x e else EmptyString) +++ gat es' k x
     end.
 
   Lemma raw_gather es x k : mgather k (raw es x) = gat es k x.
@@ -99,14 +85,14 @@ Section Gen.
     induction es as [|e es IH]; [reflexivity|].
     unfold raw in *. cbn [flat_map gat]. rewrite mgather_app, IH. f_equal.
     unfold gval. destruct (get x e) as [v|]; simpl.
-    - destruct (N.eqb k (snd e)); [apply app_nil_r_s|reflexivity].
-    - destruct (N.eqb k (snd e)); reflexivity.
+    - destruct (teqb k (tk e)); [apply app_nil_r_s|reflexivity].
+    - destruct (teqb k (tk e)); reflexivity.
   Qed.
 
-  Lemma gat_notin es k x : ~ In k (map snd es) -> gat es k x = EmptyString.
+  Lemma gat_notin es k x : ~ In k (map tk es) -> gat es k x = EmptyString.
   Proof.
     induction es as [|e es IH]; simpl; intros H; auto.
-    destruct (N.eqb_spec k (snd e)); [exfalso; apply H; auto|]. simpl. apply IH. auto.
+    destruct (teqb_spec k (tk e)); [exfalso; apply H; auto|]. simpl. apply IH. auto.
   Qed.
 
   Lemma nodup_N_spec l : nodup_N l = true -> NoDup l.
@@ -116,6 +102,13 @@ Section Gen.
       intros Hin. assert (existsb (N.eqb a) l = true); [|congruence].
       apply existsb_exists. exists a. split; auto. apply N.eqb_refl.
     - apply IH. apply andb_prop in H as (_ & H). exact H.
+  Qed.
+
+  Lemma nodup_tk es : NoDup (map snd es) -> NoDup (map tk es).
+  Proof.
+    induction es as [|e es IH]; simpl; intros H; constructor; inversion H; subst; auto.
+    intros Hin. apply in_map_iff in Hin as (e' & E & He'). unfold tk, kstr in E. inversion E as [E'].
+    match goal with H : ~ In _ _ |- _ => apply H end. rewrite <- E'. apply in_map, He'.
   Qed.
 
   Lemma classic_list (l : list X) e :
@@ -137,15 +130,15 @@ Section Gen.
   Lemma concat_strings_nil (l : list X) : concat_strings (map (fun _ => EmptyString) l) = EmptyString.
   Proof. induction l; simpl; auto. Qed.
 
-  Lemma gat_whole es k : NoDup (map snd es) ->
+  Lemma gat_whole es k : NoDup (map tk es) ->
     gat es k whole = concat_strings (map (fun x => gat es k x) xs).
   Proof.
     induction es as [|e es IH]; intros Hnd.
     - simpl. symmetry. apply concat_strings_nil.
     - inversion Hnd as [|? ? Hnotin Hnd']; subst. cbn [gat].
-      destruct (N.eqb_spec k (snd e)).
-      + subst k. rewrite (gat_notin es (snd e) whole Hnotin), app_nil_r_s, Hval.
-        f_equal. apply map_ext. intros x. rewrite (gat_notin es (snd e) x Hnotin), app_nil_r_s. reflexivity.
+      destruct (teqb_spec k (tk e)).
+      + subst k. rewrite (gat_notin es (tk e) whole Hnotin), app_nil_r_s, Hval.
+        f_equal. apply map_ext. intros x. rewrite (gat_notin es (tk e) x Hnotin), app_nil_r_s. reflexivity.
       + simpl. rewrite IH by exact Hnd'. reflexivity.
   Qed.
 
@@ -156,7 +149,7 @@ Section Gen.
     rewrite mgather_app, IH. reflexivity.
   Qed.
 
-  Lemma raw_commutes es : NoDup (map snd es) ->
+  Lemma raw_commutes es : NoDup (map tk es) ->
     ins_all (List.concat (map (raw es) xs)) [] = ins_all (raw es whole) [].
   Proof.
     intros Hnd. apply ins_all_ext.
@@ -171,11 +164,23 @@ Section Gen.
         { clear -Hnone Hg. destruct (classic_list xs e) as [H|H]; auto.
           exfalso. apply Hg, Hnone, H. }
         destruct Hex as (x & Hx & Hgx).
-        assert (Hk : In (snd e) (mkeys (raw es x))) by (apply raw_keys; exists e; auto).
+        assert (Hk : In (tk e) (mkeys (raw es x))) by (apply raw_keys; exists e; auto).
         unfold mkeys in Hk. apply in_map_iff in Hk as (kv & Ek & Hin).
         exists kv. split; auto. apply in_concat. exists (raw es x). split; auto. apply in_map, Hx.
     - intros k. rewrite mgather_concat_map, raw_gather, (gat_whole es k Hnd).
       f_equal. apply map_ext. intros x. apply raw_gather.
+  Qed.
+
+  (* the chunks a mapping produces hold strings only: they concatenate *)
+  Lemma mok_raw es (l : list X) : mok (map (fun r => ins_all r []) (map (raw es) l)) = true.
+  Proof.
+    destruct l as [|a [|b l]]; [reflexivity|reflexivity|].
+    change (mok (map (fun r => ins_all r []) (map (raw es) (a :: b :: l))))
+      with (mcons (ins_all (List.concat (map (fun r => ins_all r []) (map (raw es) (a :: b :: l)))) [])).
+    rewrite concat_canon, mcons_canon. apply mcons_spec, flat_Cons.
+    intros k Hk. unfold mkeys in Hk. apply in_map_iff in Hk as (e & <- & He).
+    apply in_concat in He as (r & Hr & He). apply in_map_iff in Hr as (x & <- & _).
+    apply (raw_flat es x). unfold mkeys. apply in_map, He.
   Qed.
 End Gen.
 
@@ -188,7 +193,7 @@ Definition all_some (es : list (option N * N)) : bool :=
 Definition getS (c : string) (e : option N * N) : option string := Some c.
 Definition getM (m : amap) (e : option N * N) : option string :=
   match fst e with
-  | Some a => if mhas a m then Some (mgather a m) else None
+  | Some a => if mhas (kstr a) m then Some (mgather (kstr a) m) else None
   | None => None
   end.
 
@@ -207,11 +212,11 @@ Proof.
   induction es as [|[[a|] t] es IH]; [reflexivity| |].
   - cbn [fm_entries all_some forallb fst andb]. rewrite IH. fold (all_some es).
     unfold raw. cbn [flat_map]. unfold getM at 2. cbn [fst snd].
-    destruct (mhas a m); cbn [res_bind]; destruct (all_some es); reflexivity.
+    destruct (mhas (kstr a) m); cbn [res_bind]; destruct (all_some es); reflexivity.
   - reflexivity.
 Qed.
 
-Lemma fm_VM_strict es m : forallb (fun a => mhas a m) (fmap_from (FTo es)) = true ->
+Lemma fm_VM_strict es m : forallb (fun a => mhas (kstr a) m) (fmap_from (FTo es)) = true ->
   fm_entries true es (VM m) = fm_entries false es (VM m).
 Proof.
   induction es as [|[[a|] t] es IH]; intros H; [reflexivity| |].
@@ -223,118 +228,72 @@ Qed.
 Lemma all_none_some es : es <> [] -> all_none es = true -> all_some es = true -> False.
 Proof. destruct es as [|[[a|] t] es]; simpl; intros; try congruence. Qed.
 
-Lemma mgather_mval a ms : mgather a (mval ms) = mgather a (List.concat ms).
-Proof.
-  destruct ms as [|x [|y ms]]; [reflexivity| |].
-  - simpl. rewrite app_nil_r. reflexivity.
-  - unfold mval. rewrite mgather_ins_all by constructor. reflexivity.
-Qed.
-
 Lemma mgather_concat a ms : mgather a (List.concat ms) = concat_strings (map (mgather a) ms).
 Proof. induction ms as [|m ms IH]; [reflexivity|]. simpl. rewrite mgather_app, IH. reflexivity. Qed.
 
-Lemma mhas_mval a ms : mhas a (mval ms) = mhas a (List.concat ms).
+Lemma gvalM m a t : gval getM m (Some a, t) = mgather (kstr a) m.
 Proof.
-  destruct (mhas a (List.concat ms)) eqn:E.
-  - apply mhas_in, mval_keys, mhas_in, E.
-  - apply mhas_notin. intros H. apply mval_keys, mhas_in in H. congruence.
-Qed.
-
-Lemma mhas_concat_false a ms : mhas a (List.concat ms) = false <-> forall m, In m ms -> mhas a m = false.
-Proof.
-  induction ms as [|m ms IH]; simpl.
-  - split; auto. intros _ ? [].
-  - rewrite mhas_app, Bool.orb_false_iff, IH. split.
-    + intros (H1 & H2) x [<-|Hx]; auto.
-    + intros H. split; [apply H; auto|intros x Hx; apply H; auto].
-Qed.
-
-Lemma gvalM m a t : gval getM m (Some a, t) = mgather a m.
-Proof.
-  unfold gval, getM. cbn [fst]. destruct (mhas a m) eqn:E; auto.
+  unfold gval, getM. cbn [fst]. destruct (mhas (kstr a) m) eqn:E; auto.
   symmetry. apply mgather_notin, mhas_notin, E.
 Qed.
 
 Lemma s_fmap_nonnil f s : s <> [] -> s_fmap f s <> [].
 Proof. destruct s; [congruence|discriminate]. Qed.
 
-Lemma fmap_good f s : fmap_wf f = true -> good (s_fmap f s) -> good s.
-Proof.
-  intros Hwf Hg. apply good_items in Hg. apply good_items.
-  assert (Hin : forall it, In it s -> In (match it with
-                 | Bad e => Bad e
-                 | Val x =>
-                     match f with
-                     | FTo es => match fm_entries false es x with
-                                 | Ok r => Val (VM (ins_all r []))
-                                 | _ => Bad e_type
-                                 end
-                     | FTake a => match x with
-                                  | VM m => Val (VS (mgather a m))
-                                  | VS _ => Bad e_type
-                                  end
-                     end
-                 end) (s_fmap f s)).
-  { intros it H. unfold s_fmap. apply in_map_iff. exists it. split; auto. }
-  destruct f as [es|a].
-  - (* FTo *)
-    simpl in Hwf. apply andb_prop in Hwf as (Hne & _).
-    assert (Hes : es <> []) by (destruct es; [discriminate|congruence]).
-    destruct (all_none es) eqn:En.
-    + left. intros it Hit. specialize (Hin it Hit).
-      destruct it as [[c|m]|e].
-      * eauto.
-      * exfalso. rewrite fm_VM_lax in Hin.
-        destruct (all_some es) eqn:Es; [exact (all_none_some es Hes En Es)|].
-        destruct Hg as [Hg|Hg]; destruct (Hg _ Hin) as (? & ?); discriminate.
-      * exfalso. destruct Hg as [Hg|Hg]; destruct (Hg _ Hin) as (? & ?); discriminate.
-    + right. intros it Hit. specialize (Hin it Hit).
-      destruct it as [[c|m]|e].
-      * exfalso. rewrite fm_VS, En in Hin.
-        destruct Hg as [Hg|Hg]; destruct (Hg _ Hin) as (? & ?); discriminate.
-      * eauto.
-      * exfalso. destruct Hg as [Hg|Hg]; destruct (Hg _ Hin) as (? & ?); discriminate.
-  - (* FTake *)
-    right. intros it Hit. specialize (Hin it Hit).
-    destruct it as [[c|m]|e].
-    + exfalso. destruct Hg as [Hg|Hg]; destruct (Hg _ Hin) as (? & ?); discriminate.
-    + eauto.
-    + exfalso. destruct Hg as [Hg|Hg]; destruct (Hg _ Hin) as (? & ?); discriminate.
-Qed.
+Lemma fmap_bad f s : has_bad s -> has_bad (s_fmap f s).
+Proof. apply has_bad_map. reflexivity. Qed.
 
-Lemma vsconcat_bad_in s e : In (Bad e) s -> failed (vsconcat s).
-Proof. intros H. unfold vsconcat, sconcat. apply failed_bind. eapply vals_of_bad; eauto. Qed.
+Lemma all_bad (g : item val -> item val) s :
+  s <> [] -> (forall it, In it s -> exists e, g it = Bad e) -> has_bad (map g s).
+Proof.
+  destruct s as [|it s]; [congruence|]. intros _ H.
+  destruct (H it (or_introl eq_refl)) as (e & E). exists e. cbn [map]. left. exact E.
+Qed.
 
 Lemma all_bad_fails (g : item val -> item val) s :
   s <> [] -> (forall it, In it s -> exists e, g it = Bad e) -> failed (vsconcat (map g s)).
-Proof.
-  destruct s as [|it s]; [congruence|]. intros _ H.
-  destruct (H it (or_introl eq_refl)) as (e & E).
-  apply (vsconcat_bad_in _ e). cbn [map]. left. exact E.
-Qed.
+Proof. intros Hn H. apply vsconcat_bad, all_bad; auto. Qed.
 
 (* ------------------------------------------------------------------ the theorem *)
-Theorem concat_fieldMap_lem f s : fmap_wf f = true -> s <> [] ->
+Theorem concat_fieldMap_lem f s : fmap_wf f = true -> s <> [] -> sound s ->
   (forall x, vsconcat s = Ok x -> fmap_dom f x = true) ->
-  agree (vsconcat (s_fmap f s)) (res_bind (vsconcat s) (v_fmap f)) /\ s_fmap f s <> [].
+  agree (vsconcat (s_fmap f s)) (res_bind (vsconcat s) (v_fmap f)) /\ s_fmap f s <> []
+  /\ sound (s_fmap f s).
 Proof.
-  intros Hwf Hn Hd. split; [|apply s_fmap_nonnil, Hn].
-  destruct (vsconcat s) as [v| |] eqn:E.
-  2:{ apply agree_failed; [|apply failed_Err].
-      apply (failed_by_good s); [exact Hn|rewrite E; apply failed_Err|apply fmap_good, Hwf]. }
-  2:{ apply agree_failed; [|apply failed_Panic].
-      apply (failed_by_good s); [exact Hn|rewrite E; apply failed_Panic|apply fmap_good, Hwf]. }
-  specialize (Hd v eq_refl). cbn [res_bind].
-  apply vsconcat_ok in E as [(ss & Hss & -> & ->)|(ms & Hms & -> & ->)].
+  intros Hwf Hn Hs Hd. split; [|split; [apply s_fmap_nonnil, Hn|]].
+  2:{ (* soundness: from the agreement below, proved twice to keep the statement flat *)
+    apply sound_cases in Hs as [Hb|[(ss & Hss & ->)|(ms & Hms & -> & Hok)]].
+    - apply sound_bad, fmap_bad, Hb.
+    - destruct f as [es|a].
+      + destruct (all_none es) eqn:En.
+        * assert (Es : s_fmap (FTo es) (sVS ss) = sVM (map (fun r => ins_all r []) (map (raw getS es) ss))).
+          { unfold s_fmap, sVS, sVM. rewrite !map_map. apply map_ext. intros c. rewrite fm_VS, En. reflexivity. }
+          rewrite Es. right. eexists. apply vsconcat_sVM_ok; [destruct ss; [congruence|discriminate]|apply mok_raw].
+        * apply sound_bad, all_bad; [exact Hn|]. intros it Hit. apply in_sVS in Hit as (c & ->).
+          rewrite fm_VS, En. eauto.
+      + apply sound_bad, all_bad; [exact Hn|]. intros it Hit. apply in_sVS in Hit as (c & ->). eauto.
+    - destruct f as [es|a].
+      + destruct (all_some es) eqn:En.
+        * assert (Es : s_fmap (FTo es) (sVM ms) = sVM (map (fun r => ins_all r []) (map (raw getM es) ms))).
+          { unfold s_fmap, sVM. rewrite !map_map. apply map_ext. intros m. rewrite fm_VM_lax, En. reflexivity. }
+          rewrite Es. right. eexists. apply vsconcat_sVM_ok; [destruct ms; [congruence|discriminate]|apply mok_raw].
+        * apply sound_bad, all_bad; [exact Hn|]. intros it Hit. apply in_sVM in Hit as (m & ->).
+          rewrite fm_VM_lax, En. eauto.
+      + assert (Es : s_fmap (FTake a) (sVM ms) = sVS (map (mgather (kstr a)) ms)).
+        { unfold s_fmap, sVM, sVS. rewrite !map_map. reflexivity. }
+        rewrite Es. right. eexists. apply vsconcat_sVS. destruct ms; [congruence|discriminate]. }
+  apply sound_cases in Hs as [Hb|[(ss & Hss & ->)|(ms & Hms & -> & Hok)]].
+  - apply agree_failed; [apply vsconcat_bad, fmap_bad, Hb|apply failed_bind, vsconcat_bad, Hb].
   - (* a stream of strings *)
+    rewrite vsconcat_sVS by exact Hss. cbn [res_bind].
     destruct f as [es|a].
     + cbn [v_fmap]. rewrite fm_VS. destruct (all_none es) eqn:En; cbn [res_bind].
       * assert (Es : s_fmap (FTo es) (sVS ss) = sVM (map (fun r => ins_all r []) (map (raw getS es) ss))).
         { unfold s_fmap, sVS, sVM. rewrite !map_map. apply map_ext. intros c.
           rewrite fm_VS, En. reflexivity. }
-        rewrite Es, vsconcat_sVM by (destruct ss; [congruence|discriminate]).
+        rewrite Es, vsconcat_sVM_ok; [|destruct ss; [congruence|discriminate]|apply mok_raw].
         rewrite mval_canon by (destruct ss; [congruence|discriminate]).
-        simpl in Hwf. apply andb_prop in Hwf as (_ & Hnd). apply nodup_N_spec in Hnd.
+        simpl in Hwf. apply andb_prop in Hwf as (_ & Hnd). apply nodup_N_spec, nodup_tk in Hnd.
         rewrite (raw_commutes getS ss (concat_strings ss)); [reflexivity| | |exact Hnd].
         -- intros e. unfold getS. split; [discriminate|].
            intros H. destruct ss as [|c ss]; [congruence|]. discriminate (H c (or_introl eq_refl)).
@@ -342,28 +301,30 @@ Proof.
       * apply agree_failed; [|apply failed_Err].
         apply all_bad_fails; [exact Hn|]. intros it Hit. apply in_sVS in Hit as (c & ->).
         rewrite fm_VS, En. eauto.
-    + cbn [v_fmap v_getKey]. apply agree_failed; [|apply failed_Err].
+    + cbn [v_fmap v_getStr]. apply agree_failed; [|apply failed_Err].
       apply all_bad_fails; [exact Hn|]. intros it Hit. apply in_sVS in Hit as (c & ->). eauto.
   - (* a stream of maps *)
+    specialize (Hd (VM (mval ms))). rewrite vsconcat_sVM_ok in Hd by auto. specialize (Hd eq_refl).
+    rewrite vsconcat_sVM_ok by auto. cbn [res_bind].
     destruct f as [es|a].
     + cbn [v_fmap]. cbn [fmap_dom] in Hd. rewrite (fm_VM_strict es _ Hd), fm_VM_lax.
       destruct (all_some es) eqn:En; cbn [res_bind].
       * assert (Es : s_fmap (FTo es) (sVM ms) = sVM (map (fun r => ins_all r []) (map (raw getM es) ms))).
         { unfold s_fmap, sVM. rewrite !map_map. apply map_ext. intros m.
           rewrite fm_VM_lax, En. reflexivity. }
-        rewrite Es, vsconcat_sVM by (destruct ms; [congruence|discriminate]).
+        rewrite Es, vsconcat_sVM_ok; [|destruct ms; [congruence|discriminate]|apply mok_raw].
         rewrite mval_canon by (destruct ms; [congruence|discriminate]).
-        simpl in Hwf. apply andb_prop in Hwf as (_ & Hnd). apply nodup_N_spec in Hnd.
+        simpl in Hwf. apply andb_prop in Hwf as (_ & Hnd). apply nodup_N_spec, nodup_tk in Hnd.
         rewrite (raw_commutes getM ms (mval ms)); [reflexivity| | |exact Hnd].
         -- intros [[a|] t]; unfold getM; cbn [fst].
            ++ rewrite mhas_mval.
-              destruct (mhas a (List.concat ms)) eqn:Eh.
+              destruct (mhas (kstr a) (List.concat ms)) eqn:Eh.
               ** split; [discriminate|]. intros H. exfalso.
-                 assert (Hall : forall m, In m ms -> mhas a m = false).
-                 { intros m Hm. specialize (H m Hm). destruct (mhas a m); [discriminate|reflexivity]. }
+                 assert (Hall : forall m, In m ms -> mhas (kstr a) m = false).
+                 { intros m Hm. specialize (H m Hm). destruct (mhas (kstr a) m); [discriminate|reflexivity]. }
                  apply mhas_concat_false in Hall. congruence.
               ** split; auto. intros _ m Hm.
-                 rewrite (proj1 (mhas_concat_false a ms) Eh m Hm). reflexivity.
+                 rewrite (proj1 (mhas_concat_false (kstr a) ms) Eh m Hm). reflexivity.
            ++ split; auto.
         -- intros [[a|] t].
            ++ rewrite gvalM, mgather_mval, mgather_concat. f_equal. apply map_ext. intros m.
@@ -372,9 +333,9 @@ Proof.
       * apply agree_failed; [|apply failed_Err].
         apply all_bad_fails; [exact Hn|]. intros it Hit. apply in_sVM in Hit as (m & ->).
         rewrite fm_VM_lax, En. eauto.
-    + cbn [v_fmap v_getKey]. cbn [fmap_dom fmap_from forallb] in Hd. rewrite Bool.andb_true_r in Hd.
+    + cbn [v_fmap v_getStr]. cbn [fmap_dom fmap_from forallb] in Hd. rewrite Bool.andb_true_r in Hd.
       unfold mlookup. rewrite Hd.
-      assert (Es : s_fmap (FTake a) (sVM ms) = sVS (map (mgather a) ms)).
+      assert (Es : s_fmap (FTake a) (sVM ms) = sVS (map (mgather (kstr a)) ms)).
       { unfold s_fmap, sVM, sVS. rewrite !map_map. reflexivity. }
       rewrite Es, vsconcat_sVS by (destruct ms; [congruence|discriminate]).
       rewrite mgather_mval, mgather_concat. reflexivity.
@@ -382,15 +343,15 @@ Qed.
 
 (* mechanism of finding F-C04c: a key the mapping reads and no chunk carries — the value
    form fails, the stream form maps nothing (a stream of empty strings / empty maps) *)
-Lemma fieldMap_missing_lem a ms : ms <> [] -> mhas a (mval ms) = false ->
+Lemma fieldMap_missing_lem a ms : ms <> [] -> mok ms = true -> mhas (kstr a) (mval ms) = false ->
   res_bind (vsconcat (sVM ms)) (v_fmap (FTake a)) = Err e_nokey
   /\ vsconcat (s_fmap (FTake a) (sVM ms)) = Ok (VS EmptyString).
 Proof.
-  intros Hms Hh. split.
-  - rewrite vsconcat_sVM by exact Hms. cbn [res_bind v_fmap v_getKey]. unfold mlookup. rewrite Hh. reflexivity.
-  - assert (Es : s_fmap (FTake a) (sVM ms) = sVS (map (mgather a) ms)).
+  intros Hms Hok Hh. split.
+  - rewrite vsconcat_sVM_ok by auto. cbn [res_bind v_fmap v_getStr]. unfold mlookup. rewrite Hh. reflexivity.
+  - assert (Es : s_fmap (FTake a) (sVM ms) = sVS (map (mgather (kstr a)) ms)).
     { unfold s_fmap, sVM, sVS. rewrite !map_map. reflexivity. }
     rewrite Es, vsconcat_sVS by (destruct ms; [congruence|discriminate]).
     rewrite <- mgather_concat, <- mgather_mval.
-    rewrite (mgather_notin a (mval ms)) by (apply mhas_notin, Hh). reflexivity.
+    rewrite (mgather_notin (kstr a) (mval ms)) by (apply mhas_notin, Hh). reflexivity.
 Qed.
